@@ -34,7 +34,7 @@ class C10(scen.WorldProp):
                   "churn / call) hit a running touch")
 
     def cases(self, rng, tier):
-        n = 60 if tier == "quick" else 600
+        n = 300 if tier == "quick" else 3000
         for i in range(n):
             N = rng.choice([4, 5, 6, 8, 10])
             humans = sorted(rng.sample(range(1, N + 1), rng.randint(0, N - 1)))
